@@ -59,25 +59,9 @@ def cases(rng, tier):
     return out
 
 
-APP_VERSIONS = [
-    {},
-    {"app": "caf\udce9"},                      # a lone surrogate (os.fsdecode of undecodable bytes): JSON escapes it
-    {"\ud800key": ["\udfff", "\U0001f600", "e\u0301"]},
-    {"n": 10 ** 30, "f": 1.5, "none": None, "t": True, "nested": {"a": [[], {}, ""]}},
-    {"text": "\u2028\u2029\x00\x7f\\\"\n"},
-]
-
-
 def real_cases(rng, tier):
-    out = [dict(kind="real", seed=rng.randrange(10**9), steps=rng.choice([20, 50, 100]), pclose=rng.choice([0.0, 0.05, 0.1]))
-           for _ in range(30 if tier == "quick" else 600)]
-    # fixed seeds (drawn from their own generator, so the stream above is unchanged): every kind of application
-    # versions dict on each side, in a cooperative session that reaches the version exchange
-    r2 = __import__("random").Random(14)
-    for i in range(1, len(APP_VERSIONS)):
-        for j in (0, i):
-            out.append(dict(kind="real", seed=r2.randrange(10**9), steps=40, pclose=0.0, pmatch=1.0, versions=[i, j], sizes=[1, 100]))
-    return out
+    return [dict(kind="real", seed=rng.randrange(10**9), steps=rng.choice([20, 50, 100]), pclose=rng.choice([0.0, 0.05, 0.1]))
+            for _ in range(30 if tier == "quick" else 600)]
 
 
 def oracle(summary):
@@ -114,11 +98,7 @@ def run_real(case):
     rng = random.Random(case["seed"])
     viol = []
     with RealWorld(seed=case["seed"]) as W:
-        # the application's `versions=` dict travels inside the encrypted `version` message (dict_to_bytes / bytes_to_dict):
-        # any JSON-serialisable value is legal, including strings UTF-8 cannot encode (PEP 383 file names), which JSON
-        # escapes; case["versions"] = index into APP_VERSIONS per client (absent: the default {})
-        vi = case.get("versions") or [None, None]
-        cl = [W.add_client(None if vi[0] is None else APP_VERSIONS[vi[0]]), W.add_client(None if vi[1] is None else APP_VERSIONS[vi[1]])]
+        cl = [W.add_client(), W.add_client()]
         code = "9-drumbeat-uproot"
         closed = [False, False]
         coded = [False, False]
@@ -171,8 +151,7 @@ def run_real(case):
         for l in W.logged:
             viol.append(("logged-error:" + l.split("(")[0].split(":")[0][:40], f"an error was logged: {l}"))
         trace = [[n for n, v in c.events] for c in cl]
-        vtags = ["real:app-versions=%s" % ("default" if v is None else v) for v in vi]
-        return Result([], [], viol, ["real"] + ["real:verdict:" + str(v) for v in verdicts] + vtags, True, info=dict(trace=trace))
+        return Result([], [], viol, ["real"] + ["real:verdict:" + str(v) for v in verdicts], True, info=dict(trace=trace))
 
 
 # ---------------------------------------------------------------------------
